@@ -182,7 +182,12 @@ class BrokerRig(object):
 
     # -- what a client can observe ------------------------------------------------------------
     def project(self):
-        b = self.broker
+        return project_broker(self.broker, self.oid_of, self.UNKNOWN)
+
+
+def project_broker(b, oid_of, UNKNOWN="__no_such_portfolio__"):
+    if True:
+        self = None
         p = dict(now=minutes(b.current_dt))
         cb = b.get_account_cash_balance()
         p["master"] = mil(cb[b.base_currency])
@@ -210,19 +215,21 @@ class BrokerRig(object):
             p["trp"][pid], p["tup"][pid], p["ttp"][pid] = mil(fl["trp"][pid]), mil(fl["tup"][pid]), mil(fl["ttp"][pid])
             p["hist"][pid] = [dict(kind=h.type, t=minutes(h.dt), debit=mil(h.debit), credit=mil(h.credit),
                                    bal=mil(h.balance)) for h in pf.history]
-            p["queue"][pid] = [[self.oid_of.get(o.order_id, 0), o.asset, int(o.quantity)]
+            p["queue"][pid] = [[oid_of.get(o.order_id, 0), o.asset, int(o.quantity)]
                                for o in list(b.open_orders[pid].queue)]
-        p["acctEq"] = self._total(b.get_account_total_equity, p["teq"])
-        p["acctMv"] = self._total(b.get_account_total_market_value, p["tmv"])
-        p["unk"] = dict(cash=_cls(lambda: b.get_portfolio_cash_balance(self.UNKNOWN)),
-                        tmv=_cls(lambda: b.get_portfolio_total_market_value(self.UNKNOWN)),
-                        teq=_cls(lambda: b.get_portfolio_total_equity(self.UNKNOWN)),
-                        dict=_cls(lambda: b.get_portfolio_as_dict(self.UNKNOWN)),
+        p["acctEq"] = _total(b.get_account_total_equity, p["teq"])
+        p["acctMv"] = _total(b.get_account_total_market_value, p["tmv"])
+        p["unk"] = dict(cash=_cls(lambda: b.get_portfolio_cash_balance(UNKNOWN)),
+                        tmv=_cls(lambda: b.get_portfolio_total_market_value(UNKNOWN)),
+                        teq=_cls(lambda: b.get_portfolio_total_equity(UNKNOWN)),
+                        dict=_cls(lambda: b.get_portfolio_as_dict(UNKNOWN)),
                         ccy=_cls(lambda: b.get_account_cash_balance("XXX")))
         p["_f"] = fl
         return p
 
-    def _total(self, getter, per_pf):
+
+def _total(getter, per_pf):
+    if True:
         """account-level totals: {"master": sum, pid: value...} -> master in mils, or the error class;
         the per-portfolio entries must be the per-portfolio getters' figures."""
         try:
